@@ -228,19 +228,38 @@ pub fn run(tier: &str) -> i32 {
                 // original: reordered / thinned lists spend outputs that do not exist yet,
                 // which is outside the domain and traps by design)
                 if (!want || name == "valid") && (n <= 9 || name.starts_with("repeat") || name == "valid") {
-                    w = World::new(WorldCfg::regtest(2));
-                    let r = w.deliver_direct(&block, None);
-                    match r {
-                        Err(p) => {
-                            out.set_history(ctx.clone());
-                            out.violation("insert-block-trap", None, json!({"panic": p}));
-                        }
-                        Ok(acc) => {
-                            if acc != want {
+                    // twice: on a fresh canister, and on one to which the header of this block
+                    // was announced beforehand (a block whose header is already known gets the
+                    // same structural checks)
+                    for announced in [false, true] {
+                        w = World::new(WorldCfg::regtest(2));
+                        if announced {
+                            let blob = crate::world::header_blob(factory::header_bytes(&block.header));
+                            let r = crate::util::guarded(|| {
+                                ic_btc_canister::with_state_mut(|s| ic_btc_canister::state::insert_next_block_headers(s, &[blob.clone()]))
+                            });
+                            if let Err(p) = r {
                                 out.set_history(ctx.clone());
-                                out.violation("insert-block-acceptance", None, json!({"expected_accept": want, "observed": acc}));
-                            } else {
-                                out.count("insert_block_agreements");
+                                out.violation("announce-trap", None, json!({"panic": p}));
+                                continue;
+                            }
+                        }
+                        let r = w.deliver_direct(&block, None);
+                        match r {
+                            Err(p) => {
+                                out.set_history(ctx.clone());
+                                out.violation("insert-block-trap", None, json!({"panic": p, "header_announced_before": announced}));
+                            }
+                            Ok(acc) => {
+                                if acc != want {
+                                    out.set_history(ctx.clone());
+                                    out.violation("insert-block-acceptance", None, json!({"expected_accept": want, "observed": acc, "header_announced_before": announced}));
+                                } else {
+                                    out.count("insert_block_agreements");
+                                    if announced {
+                                        out.count("insert_block_agreements_with_the_header_announced_before");
+                                    }
+                                }
                             }
                         }
                     }
@@ -258,7 +277,7 @@ pub fn run(tier: &str) -> i32 {
     out.samples.push(json!({"transactions": 6, "mutation": "repeat last 2", "root": "left alone", "expected": "rejected: DuplicateTransactions"}));
     rep.out.merge(out);
     rep.evaluations = rep.out.states;
-    rep.rule = "for n = 1..17 (quick) / 1..33 (thorough) transactions (legacy and segwit): the valid block; repetition of the trailing 2^k leaves for every k (all merkle-preserving duplications and their non-preserving siblings), the same with the copies' witnesses altered (same txid, other wtxid), closed under composition to depth 2; every removal, adjacent swap, rotation; coinbase moved, duplicated, second coinbase; a duplicate in the middle; the empty list; each with the header's root left alone and recomputed (header re-mined); through BlockValidator::validate_block and state::insert_block; distinct = distinct block bytes".into();
+    rep.rule = "for n = 1..17 (quick) / 1..33 (thorough) transactions (legacy and segwit): the valid block; repetition of the trailing 2^k leaves for every k (all merkle-preserving duplications and their non-preserving siblings), the same with the copies' witnesses altered (same txid, other wtxid), closed under composition to depth 2; every removal, adjacent swap, rotation; coinbase moved, duplicated, second coinbase; a duplicate in the middle; the empty list; each with the header's root left alone and recomputed (header re-mined); through BlockValidator::validate_block and state::insert_block (on a fresh canister, and on one that was announced the block's header before); distinct = distinct block bytes".into();
     rep.bounds = json!({"tier": tier, "max_transactions": max_n});
     rep.assume("reference: independent merkle routine + the four clauses of the statement");
     rep.assume("transactions that differ only in signature data (same ntxid) cannot occur in a transaction-valid block and are not judged");
@@ -267,5 +286,6 @@ pub fn run(tier: &str) -> i32 {
     rep.floor("accepted_variants", 100);
     rep.floor("rejected_variants", 500);
     rep.floor("insert_block_agreements", 500);
+    rep.floor("insert_block_agreements_with_the_header_announced_before", 250);
     rep.finish()
 }
